@@ -215,6 +215,18 @@ def run(c, chk):
     defaults_for_every_context(c, chk, ex)
     chk.rule('R16.6', 'a context\'s flag word (inherited wholesale by every section created in it) is written only while the context is being built')
     flag_words(c, chk, rid_ctx='R16.6')
+    from . import c02 as _c02
+    _c02.table_growth(c, chk, 'R16.8')
+    # R16.9: instances disappear only when the application removes them
+    chk.rule('R16.9', 'sections are removed only through the removal calls of the API: neither the parser nor a setter takes an instance out of an option')
+    from .. import cfg as _cfgm
+    removers = {'cfg_opt_rmnsec', 'cfg_rmnsec', 'cfg_opt_rmtsec', 'cfg_rmtsec', 'cfg_rmsec'}
+    callers = sorted(set(o for f in c.all_funcs() for call in f.calls() if call.callee_name() in removers for o in c.owners(f.name)) - removers)
+    if callers:
+        chk.fail('R16.9', 'remover-called:%s' % ','.join(callers), c.where(c.func(callers[0])), '%s() removes a section instance: which sibling instances exist is no longer decided by '
+                 'the application alone (e.g. the parser taking "the last" instance out hits an unrelated sibling when a title was redefined)' % ', '.join(callers))
+    else:
+        chk.ok('R16.9', 'callers of the section removers', 'only the removal API itself')
 
     # ---- R16.3 ---------------------------------------------------------------------------
     for fname, pname, allowed in (('cfg_init', 'opts', {'cfg_dupopt_array'}),
